@@ -28,8 +28,11 @@ Record rep := mkRep {
 
 (* which repairs rep.c has (Gen/Consts.v).  pf_rclose: rep0_pipe_close clears the
    readable pollable when the last holding pipe goes; pf_nbsend: a refused
-   (non-blocking) send to a busy pipe gives the reply slot back. *)
-Record pfix := mkPfix { pf_rclose : bool; pf_nbsend : bool }.
+   (non-blocking) send to a busy pipe gives the reply slot back; pf_saio: a send
+   while the context's previous reply still waits for its pipe is refused with
+   NNG_ESTATE before anything is touched (pinned: ctx->saio is overwritten and the
+   list node appended twice -- an assertion failure in list.c). *)
+Record pfix := mkPfix { pf_rclose : bool; pf_nbsend : bool; pf_saio : bool }.
 
 Definition pctx_init : pctx := mkPctx 0 [] None None.
 Definition rep_init : rep := mkRep [(0%N, pctx_init)] [] [] [] [] [] [] [] false false 8.
@@ -50,6 +53,8 @@ Definition master_pipe (s : rep) : N := match rp_get s 0%N with Some c => rc_pip
 
 (* ---- rep0_ctx_send ---- *)
 Definition rep_ctx_send (pf : pfix) (s : rep) (k : N) (c : pctx) (a : aioid) (nb : bool) (m : pmsg) : rep * list pout :=
+  if pf_saio pf && (match rc_saio c with Some _ => true | None => false end)
+  then (s, [Complete a E_STATE None]) else
   let bt := rc_bt c in
   let p := rc_pipe c in
   (* the reply slot is consumed, whatever happens next *)
